@@ -30,9 +30,16 @@ def cases(draw):
     if how == 0:
         hv = 0
     s = draw(gens.scalars(256))[1]
+    # second identity for the negative probes: independent, or differing from the first only in low-order bytes / by a small amount
+    h2 = draw(gens.ints(384, Q))[1]
+    rel = draw(st.integers(0, 3))
+    if rel == 0:
+        h2 = hv ^ (1 << draw(st.integers(0, 255)))
+    elif rel == 1:
+        h2 = (hv + draw(st.integers(1, 40))) % (1 << 384)
     return {"hash": hv, "s": s, "via": draw(st.sampled_from(("unmarshal", "unmarshal", "setup"))), "t": draw(st.integers(1, R - 1)), "z": draw(c05.zval(2))[1],
             "len": draw(st.sampled_from((0, 1, 16, 32, 255))), "stream": draw(st.binary(min_size=0, max_size=48)), "seed": draw(st.integers(0, 2**32)),
-            "neg": draw(st.sampled_from(("none", "none", "other_id", "other_msk", "ct_shift"))), "hash2": draw(gens.ints(384, Q))[1], "s2": draw(gens.scalars(256))[1],
+            "neg": draw(st.sampled_from(("none", "none", "other_id", "other_msk", "ct_shift"))), "hash2": h2, "s2": draw(gens.scalars(256))[1],
             "full": draw(st.integers(0, 15)) == 0, "cpp": draw(st.booleans())}
 
 
@@ -102,7 +109,10 @@ def _check(ctx, lib, c, d):
     off1 = a1.value - ctypes.addressof(sym1)
     off2 = a2.value - ctypes.addressof(sym2)
     r_drawn = drawn(c["stream"][::-1] + b"e", c["seed"] ^ 0x77)
+    d.vf_hash_calls.restype = ctypes.c_uint64
+    calls0 = d.vf_hash_calls()
     d.vf_lq_encrypt(P["ct"], a1, ctypes.c_size_t(n), P["params"], P["id"])
+    expect(d.vf_hash_calls() == calls0 + 1, "lqibe_encrypt/hash-calls", lambda: "encrypt called the hash function %d times for length %d (exactly once expected)" % (d.vf_hash_calls() - calls0, n))
     h_enc = lib.hash_last()
     out1 = sym1.raw[off1:off1 + n + 32]
     ctimg = ctypes.string_at(P["ct"], g2a)
@@ -136,7 +146,15 @@ def _check(ctx, lib, c, d):
         d.vf_lq_id(P["id2"], P["hash"])
         d.vf_lq_keygen(P["sk2"], P["msk"], P["id2"])
         use_sk, use_id = P["sk2"], P["id2"]
-        differs = conv.b_g1_aff(lib, ctypes.string_at(P["id2"], g1a)) != Qid
+        Qid2 = conv.b_g1_aff(lib, ctypes.string_at(P["id2"], g1a))
+        differs = Qid2 != Qid
+        # independent expectation: hashes whose try-and-increment x differ give different identity points (unless cofactor clearing
+        # sends both to O); a derivation that remembers an earlier call's result would hand out the same point
+        from . import c10
+        x1 = c10.first_point(1, (hv & c09.M381) % Q)[0]
+        x2 = c10.first_point(1, (c["hash2"] & c09.M381) % Q)[0]
+        if x1 != x2 and Qid is not None:
+            expect(differs, "lqibe_compute_id/same-point-for-different-hashes", lambda: "hashes %x and %x (first curve x %x / %x) give the same identity point" % (hv, c["hash2"], x1, x2))
     elif neg == "other_msk":
         lib.A.write(conv.bi(c["s2"], 256))
         d.vf_lq_unmarshal(2, P["msk2"], lib.A.ptr, 1, 1)
@@ -149,7 +167,9 @@ def _check(ctx, lib, c, d):
         differs = True
     else:
         differs = False
+    calls1 = d.vf_hash_calls()
     d.vf_lq_decrypt(a2, ctypes.c_size_t(n), use_ct, use_sk, use_id)
+    expect(d.vf_hash_calls() == calls1 + 1, "lqibe_decrypt/hash-calls", lambda: "decrypt called the hash function %d times for length %d (exactly once expected)" % (d.vf_hash_calls() - calls1, n))
     h_dec = lib.hash_last()
     out2 = sym2.raw[off2:off2 + n + 32]
     expect(out2[n:] == b"\xEE" * 32, "lqibe_decrypt/symmetric-overrun", "decrypt wrote beyond symmetric_length bytes")
